@@ -87,6 +87,16 @@ EXPLANATION = (
 )
 
 
+# glue functions of the property's observe_at list (contracts/glue_c.py; texts shared in props/_glue_text.py)
+from props import _glue_text as _GT
+DEDUCTIVE += [{"module": "rnapolis.adapter", "sidecar": "contracts.glue_c",
+               "targets": ["parse_external_output", "extract_secondary_structure_from_external", "process_external_tool_output", "main@adapter"]},
+              {"module": "rnapolis.annotator", "sidecar": "contracts.glue_c", "targets": ["add_common_output_arguments"]}]
+TRUSTED = list(TRUSTED) + _GT.TRUSTED
+ASSUMPTIONS = list(ASSUMPTIONS) + _GT.ASSUMPTIONS
+EXPLANATION = EXPLANATION + _GT.C19
+
+
 def bounded(tier, seed):
     rng = rng_for(seed, "c19")
     L = 4 if tier == "quick" else 5
